@@ -171,6 +171,13 @@ def check(rec, case):
     except (TypeError, ValueError) as e:
         rec.fail(case, f"compile:{type(e).__name__}:{re.sub(r'[0-9]+', 'N', str(e))[:60]}", {"error": str(e)[:200]})
     except SyntaxError as e:
+        # the written-out Python of a program that is Python already is the program itself
+        try:
+            compile(src, "<verif-source>", mode)
+            rec.fail(case, f"compile-rejects-but-the-source-itself-compiles:{e.msg[:50]}", {"error": e.msg})
+            return
+        except (SyntaxError, ValueError, RecursionError):
+            pass
         try:
             text = ast.unparse(tree)
         except Exception as ue:  # noqa: BLE001
